@@ -1,3 +1,4 @@
+import codecs
 import os
 import sys
 import time
@@ -820,6 +821,16 @@ class spawn(SpawnBase):
         '''This is used by the interact() method.
         '''
 
+        if self.encoding is not None:
+            # In unicode mode the log files get text, like everywhere else.
+            # Each direction is decoded incrementally, as a character may be
+            # split across two reads.
+            decoder = codecs.getincrementaldecoder(self.encoding)
+            log_read = decoder('replace').decode
+            log_send = decoder('replace').decode
+        else:
+            log_read = log_send = lambda data: data
+
         while self.isalive():
             if self.use_poll:
                 r = poll_ignore_interrupts([self.child_fd, self.STDIN_FILENO])
@@ -840,7 +851,7 @@ class spawn(SpawnBase):
                     break
                 if output_filter:
                     data = output_filter(data)
-                self._log(data, 'read')
+                self._log(log_read(data), 'read')
                 os.write(self.STDOUT_FILENO, data)
             if self.STDIN_FILENO in r:
                 data = self.__interact_read(self.STDIN_FILENO)
@@ -852,10 +863,10 @@ class spawn(SpawnBase):
                 if i != -1:
                     data = data[:i]
                     if data:
-                        self._log(data, 'send')
+                        self._log(log_send(data), 'send')
                     self.__interact_writen(self.child_fd, data)
                     break
-                self._log(data, 'send')
+                self._log(log_send(data), 'send')
                 self.__interact_writen(self.child_fd, data)
 
 
